@@ -16,10 +16,10 @@ SPEC = dict(
         "triggers of the recorded known findings are excluded from generation and counted",
     ],
     quick=[
-        dict(name="mem", pkg=_PKG, test="TestDurabilityMemory", checks=1300, shards=5),
-        dict(name="rocks", pkg=_PKG, test="TestDurabilityRocks", checks=900, shards=5),
-        dict(name="l3", pkg=_PKG, test="TestDurabilityL3", checks=3000, shards=3),
-        dict(name="l1", pkg=_PKG, test="TestDurabilityL1", checks=1300, shards=2),
+        dict(name="mem", pkg=_PKG, test="TestDurabilityMemory", checks=1100, shards=5),
+        dict(name="rocks", pkg=_PKG, test="TestDurabilityRocks", checks=800, shards=5),
+        dict(name="l3", pkg=_PKG, test="TestDurabilityL3", checks=2600, shards=3),
+        dict(name="l1", pkg=_PKG, test="TestDurabilityL1", checks=1100, shards=2),
         dict(name="known", pkg=_PKG, test="TestKnown.*", checks=1, shards=1),
     ],
     thorough=[
